@@ -43,9 +43,39 @@ def program(op):
     return 'print NR . "|" . typeof(%s) . "|" . (is_numeric(%s) ? ("" . %s) : "")' % (e, e, e)
 
 
-def case_for(mlr, op, rows):
+# Other ways the same operator is applied (rendering table, no semantics): "<op>@@<via>".  The compound assignment is the
+# operator by definition; the accumulators of the verbs are documented as the sum / minimum / maximum of the values, i.e.
+# the operator folded over them (and "sums/min/max of ints stay ints").
+COMPOUND = ["+", "-", "*", "/", "//", "%", "**", "&", "|", "^", "<<", ">>", ">>>"]
+ACC = {"+": "sum", "min": "min", "max": "max"}
+
+
+def shown(e):
+    return 'print %s . "|" . typeof(%s) . "|" . (is_numeric(%s) ? ("" . %s) : "")' % ("%s", e, e, e)
+
+
+def case_for(mlr, opv, rows):
+    op, _, via = opv.partition("@@")
     body = "".join("a=%s,b=%s,c=%s\n" % r for r in rows)
-    return {"argv": [mlr, "put", "-q", program(op)], "stdin": body, "timeout_ms": 120000, "max_out": 64 << 20}
+    if via == "":
+        argv = [mlr, "put", "-q", program(op)]
+    elif via == "compound":
+        argv = [mlr, "put", "-q", "var r = $a; r %s= $b; " % op + shown("r") % "NR"]
+    elif via == "merge-fields":
+        argv = [mlr, "merge-fields", "-k", "-a", ACC[op], "-f", "a,b", "-o", "s", "then", "put", "-q", shown("$s_" + ACC[op]) % "NR"]
+    else:
+        # one group of two records per row, the group's name being the row number
+        body = "".join("g=%d,x=%s\ng=%d,x=%s\n" % (i, r[0], i, r[1]) for i, r in enumerate(rows, start=1))
+        if via == "stats1":
+            argv = [mlr, "stats1", "-a", ACC[op], "-f", "x", "-g", "g", "then", "put", "-q", shown("$x_" + ACC[op]) % "$g"]
+        elif via == "stats1-i":
+            argv = [mlr, "stats1", "-i", "-a", ACC[op], "-f", "x", "-g", "g", "then", "put", "-q",
+                    "NR % 2 == 0 {" + shown("$x_" + ACC[op]) % "$g" + "}"]
+        elif via == "step-rsum":
+            argv = [mlr, "step", "-a", "rsum", "-f", "x", "-g", "g", "then", "put", "-q", "NR % 2 == 0 {" + shown("$x_rsum") % "$g" + "}"]
+        else:
+            raise ValueError(opv)
+    return {"argv": argv, "stdin": body, "timeout_ms": 120000, "max_out": 64 << 20}
 
 
 def parse_rows(stdout, n):
@@ -158,6 +188,12 @@ def run(tier, seed):
             rows += [(a, b, "0") for a in grid for b in small]
         rows += [(a, b, "0") for a, b in rand_pairs]
         work.append((op, list(dict.fromkeys(rows))))
+    # the same operators reached through a compound assignment and through the accumulators of stats1, merge-fields and step
+    for op in binary:
+        vias = (["compound"] if op in COMPOUND else []) + (["merge-fields", "stats1", "stats1-i"] if op in ACC else []) + \
+               (["step-rsum"] if op == "+" else [])
+        for via in vias:
+            work.append(("%s@@%s" % (op, via), list(pairs) + [(a, b, "0") for a, b in rand_pairs[:200]]))
     for op in unary:
         rows = [(a, "0", "0") for a in grid] + [(a, "0", "0") for a, _ in rand_pairs]
         work.append((op, list(dict.fromkeys(rows))))
@@ -177,6 +213,7 @@ def run(tier, seed):
     arity = {op: 1 for op in unary}
     arity.update({op: 2 for op in binary})
     arity.update({op: 3 for op in ternary})
+    arity.update({opv: 2 for opv, _ in work if "@@" in opv})
     results, processes = evaluate(mlr, work, arity)
     t_eval = time.time() - t0
 
@@ -198,7 +235,7 @@ def run(tier, seed):
             kind = TYPE_NAMES.get(k, k)
             if kind == "int" and not INT_TEXT.match(v):
                 kind = "int-malformed"
-            obs.append({"op": op, "a": tokens(row[0]), "b": tokens(row[1]), "c": tokens(row[2]), "kind": kind,
+            obs.append({"op": op.partition("@@")[0], "a": tokens(row[0]), "b": tokens(row[1]), "c": tokens(row[2]), "kind": kind,
                         "val": tokens(v) if kind == "int" else ["0"]})
             meta.append((op, row, k, v, err))
 
@@ -217,12 +254,13 @@ def run(tier, seed):
     transitions += n
     for idx, p in bad:
         op, row, k, v, err = meta[idx]
-        expr = render(op, row)
+        expr = render(op.partition("@@")[0], row) + (" via " + op.partition("@@")[2] if "@@" in op else "")
         key = {"op": op, "why": p["why"], "class": p["class"]}
         detail = {"expression": expr, "operands": list(row[:arity[op]]), "typeof": k, "value": v,
                   "specified_kinds": sorted(p["kinds"]), "specified_int_values": ["".join(t) for t in p["ints"]],
                   "stderr": err,
-                  "reproduce": "printf 'a=%s,b=%s,c=%s\\n' | mlr put -q '%s'" % (row[0], row[1], row[2], program(op))}
+                  "reproduce": "printf 'a=%s,b=%s,c=%s\\n' | mlr put -q '%s'" % (row[0], row[1], row[2], program(op)) if "@@" not in op
+                  else " ".join(case_for("mlr", op, [row])["argv"]) + "   # stdin: " + case_for("mlr", op, [row])["stdin"].replace("\n", "; ")}
         V.violation(key, detail)
 
     # non-vacuity of the judgement: corrupted copies of conforming observations must be reported
@@ -258,7 +296,7 @@ def run(tier, seed):
         kinds[m[2] if not m[4] else "died"] = kinds.get(m[2] if not m[4] else "died", 0) + 1
     for i in (len(obs) // 7, len(obs) // 2, len(obs) - 3):
         op, row, k, v, _ = meta[i]
-        cov["samples"].append({"expression": render(op, row),
+        cov["samples"].append({"expression": render(op.partition("@@")[0], row),
                                "typeof": k, "value": v, "conforms": i not in badset})
     cov.update({
         "states": states, "transitions": transitions, "traces_validated_against_impl": len(obs),
